@@ -69,11 +69,21 @@ fn check_eff(rc: &ResourceCert, eff: &Value) -> Result<(), String> {
 }
 
 fn run_chain(ctx: &mut Ctx, c: &Value) -> Result<(), (String, String)> {
-    let now = time_of(c["now"].as_i64().unwrap());
+    // the model counts instants in 1/unit of the harness' time step; certificates carry whole steps, an evaluation instant between
+    // two steps is realised as the step plus half a second (X.509 times have whole seconds, the clock has not)
+    let unit = c["unit"].as_i64().unwrap_or(1);
+    let tnow = c["now"].as_i64().unwrap();
+    let now = if tnow % unit == 0 { time_of(tnow / unit) } else { time_of(tnow.div_euclid(unit)) + chrono::TimeDelta::try_milliseconds(500).unwrap() };
     let certs = c["certs"].as_array().unwrap();
     let mut issuer: Option<ResourceCert> = None;
     for (i, e) in certs.iter().enumerate() {
-        let cp = &e["cert"];
+        let mut cp_scaled = e["cert"].clone();
+        for k in ["nb", "na"] {
+            let v = cp_scaled[k].as_i64().unwrap();
+            assert!(v % unit == 0, "certificate times are whole steps");
+            cp_scaled[k] = serde_json::json!(v / unit);
+        }
+        let cp = &cp_scaled;
         let kind = cp["kind"].as_str().unwrap();
         let want_ok = e["ok"].as_bool().unwrap();
         let der = ctx.der(cp, 100 + i as u64);
@@ -87,6 +97,13 @@ fn run_chain(ctx: &mut Ctx, c: &Value) -> Result<(), (String, String)> {
                 return Ok(());
             }
         };
+        if kind == "ta" {
+            // the by-reference entry points (inspect_ta + verify_ta_ref_at, what validate_ta_at does on an owned value) decide the same question
+            let by_ref = cert.inspect_ta(true).is_ok() && cert.verify_ta_ref_at(true, now).is_ok();
+            if by_ref != want_ok {
+                return Err((format!("ta:{}:by-ref", if by_ref { "accepted" } else { "rejected" }), format!("inspect_ta + verify_ta_ref_at say {by_ref}, specification {want_ok}: {cp}")));
+            }
+        }
         let res: Result<Option<ResourceCert>, String> = match kind {
             "ta" => cert.validate_ta_at(TalInfo::from_name("t".into()).into_arc(), true, now).map(Some).map_err(|e| e.to_string()),
             "ca" => cert.validate_ca_at(issuer.as_ref().unwrap(), true, now).map(Some).map_err(|e| e.to_string()),
